@@ -10,6 +10,7 @@ mod access;
 mod actions;
 mod c20;
 mod c21;
+mod c32s;
 mod c33;
 mod glvchk;
 mod gtchk;
